@@ -144,3 +144,17 @@ def krylov_dim(mat, b):
         dim += 1
         v = matvec(v)
     return dim
+
+
+def spectral_class(Dn):
+    """Numerical classification used to decide where Krylov matrix-function paths are in their domain:
+    (eigenvalues, cond of eigenvector matrix, min gap between distinct eigenvalues, distance to (-inf, 0])."""
+    try:
+        w, V = np.linalg.eig(Dn)
+        cv = float(np.linalg.cond(V))
+    except Exception:  # noqa: BLE001
+        return None
+    n = len(w)
+    gaps = [abs(w[i] - w[j]) for i in range(n) for j in range(i + 1, n)]
+    dist_cut = min((abs(x.imag) if x.real <= 0 else abs(x)) for x in w)
+    return {"eig": w, "condV": cv, "min_gap": min(gaps) if gaps else float("inf"), "dist_cut": float(dist_cut)}
